@@ -11,19 +11,23 @@ Definition icallf (cm : catchfn) (funs : list fundef) (clos : list clodef) (n : 
       match find_fun funs f with
       | None => Some (EX (err "undefined function"), g)
       | Some d =>
-          match iexec cm funs clos n f (fbody d) (bind_params (fparams d) vs [], []) g with
-          | Fuel => None
-          | Res c _ g' => Some (call_result c, g')
-          end
+          if enough_args (fparams d) vs then
+            match iexec cm funs clos n f (fbody d) (bind_params (fparams d) vs [], []) g with
+            | Fuel => None
+            | Res c _ g' => Some (call_result c, g')
+            end
+          else Some (EX (VErr "too few arguments"), g)
       end
   | CClo id oid cap =>
       match nth_error clos id with
       | None => Some (EX (VErr "no such closure"), g)
       | Some cd =>
-          match iexec cm funs clos n (clo_name oid) (cbody cd) (bind_captured cap (bind_params (cparams cd) vs []), []) g with
-          | Fuel => None
-          | Res c _ g' => Some (call_result c, g')
-          end
+          if enough_args (cparams cd) vs then
+            match iexec cm funs clos n (clo_name oid) (cbody cd) (bind_captured cap (bind_params (cparams cd) vs []), []) g with
+            | Fuel => None
+            | Res c _ g' => Some (call_result c, g')
+            end
+          else Some (EX (VErr "too few arguments"), g)
       end
   end.
 Definition rcallf (cm : catchfn) (funs : list fundef) (clos : list clodef) (n : nat) : callfn := fun c vs g =>
@@ -32,19 +36,23 @@ Definition rcallf (cm : catchfn) (funs : list fundef) (clos : list clodef) (n : 
       match find_fun funs f with
       | None => Some (EX (err "undefined function"), g)
       | Some d =>
-          match rexec cm funs clos n f (resolve [] [] (fbody d)) (bind_params (fparams d) vs [], []) g with
-          | Fuel => None
-          | Res c _ g' => Some (rcall_result c, g')
-          end
+          if enough_args (fparams d) vs then
+            match rexec cm funs clos n f (resolve [] [] (fbody d)) (bind_params (fparams d) vs [], []) g with
+            | Fuel => None
+            | Res c _ g' => Some (rcall_result c, g')
+            end
+          else Some (EX (VErr "too few arguments"), g)
       end
   | CClo id oid cap =>
       match nth_error clos id with
       | None => Some (EX (VErr "no such closure"), g)
       | Some cd =>
-          match rexec cm funs clos n (clo_name oid) (resolve [] [] (cbody cd)) (bind_captured cap (bind_params (cparams cd) vs []), []) g with
-          | Fuel => None
-          | Res c _ g' => Some (rcall_result c, g')
-          end
+          if enough_args (cparams cd) vs then
+            match rexec cm funs clos n (clo_name oid) (resolve [] [] (cbody cd)) (bind_captured cap (bind_params (cparams cd) vs []), []) g with
+            | Fuel => None
+            | Res c _ g' => Some (rcall_result c, g')
+            end
+          else Some (EX (VErr "too few arguments"), g)
       end
   end.
 
@@ -1105,14 +1113,14 @@ Lemma callf_eq n : P n -> forall c vs g, icallf cmi funs clos n c vs g = rcallf 
 Proof.
   intros IH c vs g. unfold icallf, rcallf. destruct c as [f|id oid cap].
   - destruct (find_fun funs f) as [d|] eqn:E; [|reflexivity].
-    destruct (Hfuns _ _ E) as (H1 & H2 & H3).
+    destruct (Hfuns _ _ E) as (H1 & H2 & H3). destruct (enough_args (fparams d) vs); [|reflexivity].
     pose proof (IH f (fbody d) [] [] (bind_params (fparams d) vs [], []) g H1 H2 H3 (shorter_nil _)) as R.
     destruct (iexec cmi funs clos n f (fbody d) (bind_params (fparams d) vs [], []) g) as [|ci fi gi];
       destruct (rexec cmr funs clos n f (resolve [] [] (fbody d)) (bind_params (fparams d) vs [], []) g) as [|cr fr gr];
       simpl in R; try contradiction; [reflexivity|].
     destruct R as (C & _ & <-). rewrite (call_result_rel _ _ C). reflexivity.
   - destruct (nth_error clos id) as [cd|] eqn:E; [|reflexivity].
-    destruct (Hclos _ _ E) as (H1 & H2 & H3).
+    destruct (Hclos _ _ E) as (H1 & H2 & H3). destruct (enough_args (cparams cd) vs); [|reflexivity].
     pose proof (IH (clo_name oid) (cbody cd) [] [] (bind_captured cap (bind_params (cparams cd) vs []), []) g H1 H2 (H3 oid) (shorter_nil _)) as R.
     destruct (iexec cmi funs clos n (clo_name oid) (cbody cd) (bind_captured cap (bind_params (cparams cd) vs []), []) g) as [|ci fi gi];
       destruct (rexec cmr funs clos n (clo_name oid) (resolve [] [] (cbody cd)) (bind_captured cap (bind_params (cparams cd) vs []), []) g) as [|cr fr gr];
